@@ -43,3 +43,43 @@ def run_g1g2(repo, task):
         rep['status'] = 'checker-fault'
         rep['detail'] = 'zero G sites generated'
     return rep
+
+
+def run_sort_consts(repo, task):
+    """C12 constant / forwarding obligations read off the AST (a changed default or a dropped `kind=` is a changed obligation)."""
+    import ast
+    t0 = time.time()
+    items, failures = [], []
+
+    def ob(name, ok, note, fn):
+        items.append(dict(name=name, fn=fn, kind='G5', verdict='proved' if ok else 'refuted', backend='ast', ms=0.0, note=note))
+        if not ok:
+            failures.append(dict(key=f'G:{name}', what=f'{name}: {note}', nofail=True, replay=dict(site=name, note=note)))
+    util = ast.parse(open(os.path.join(repo, 'static_frame/core/util.py')).read())
+    val = None
+    for n in util.body:
+        if isinstance(n, ast.Assign) and any(isinstance(t, ast.Name) and t.id == 'DEFAULT_SORT_KIND' for t in n.targets):
+            val = n.value.value if isinstance(n.value, ast.Constant) else ast.unparse(n.value)
+    ob('util.DEFAULT_SORT_KIND-is-stable', val in ('mergesort', 'stable'), f'DEFAULT_SORT_KIND = {val!r}; the property rests on a stable default sort', 'util.py')
+    for mod in ('frame', 'series', 'index', 'index_hierarchy'):
+        tree = ast.parse(open(os.path.join(repo, f'static_frame/core/{mod}.py')).read())
+        for cls in [n for n in tree.body if isinstance(n, ast.ClassDef)]:
+            for fn in [n for n in cls.body if isinstance(n, ast.FunctionDef) and n.name in ('sort_index', 'sort_columns', 'sort_values', 'sort')]:
+                args = fn.args.args + fn.args.kwonlyargs
+                defaults = dict(zip([a.arg for a in fn.args.args][len(fn.args.args) - len(fn.args.defaults):], fn.args.defaults))
+                defaults.update({a.arg: d for a, d in zip(fn.args.kwonlyargs, fn.args.kw_defaults) if d is not None})
+                q = f'{mod}.py:{cls.name}.{fn.name}'
+                if 'kind' not in [a.arg for a in args]:
+                    continue
+                d = defaults.get('kind')
+                ob(f'{q}:kind-default', d is not None and ast.unparse(d) == 'DEFAULT_SORT_KIND', f'default of kind is {ast.unparse(d) if d is not None else None}', q)
+                fwd = any(isinstance(c, ast.Call) and (any(k.arg == 'kind' and ast.unparse(k.value) == 'kind' for k in c.keywords)
+                                                       or any(isinstance(a, ast.Name) and a.id == 'kind' for a in c.args)) for c in ast.walk(fn))
+                ob(f'{q}:kind-forwarded', fwd, 'the kind argument reaches a sort primitive / sort_index_for_order', q)
+                asc = [a.arg for a in args]
+                if 'ascending' in asc:
+                    fwd_a = any(isinstance(c, ast.Name) and c.id == 'ascending' and isinstance(c.ctx, ast.Load) for c in ast.walk(fn))
+                    ob(f'{q}:ascending-used', fwd_a, 'the ascending argument is read', q)
+    rep = dict(name=task['name'], status='ok' if items else 'checker-fault', items=items, failures=failures, evaluations=0, distinct=0, rule='',
+               samples=[dict(obligation=i['name'], verdict=i['verdict']) for i in items[:3]], trusted=[], assumptions=[], wall_s=round(time.time() - t0, 2))
+    return rep
